@@ -104,7 +104,21 @@ func (c *VCtx) contractScope(callee *ssa.Function, ct *FuncContract, fv *FnVal, 
 }
 
 func (sc *Scope) lookup(name string) (Val, bool) {
+	if v, ok := sc.c.lmLookup(sc, name); ok {
+		if _, isGhost, _ := func() (string, bool, bool) {
+			if sc.c.localMon == nil {
+				return "", false, false
+			}
+			_, _, g := sc.c.lmGhostHeap(sc.c.localMon, name)
+			return "", g, true
+		}(); isGhost {
+			return v, true
+		}
+	}
 	if v, ok := sc.lookup1(name); ok {
+		return v, true
+	}
+	if v, ok := sc.c.lmLookup(sc, name); ok {
 		return v, true
 	}
 	// ghost code and assertions of an inlined closure may name variables of the frames that (transitively)
